@@ -240,7 +240,8 @@ def handle_los(ctx, cases, mode):
         if "error" in c:
             ctx.evaluations += 1
             ctx.violation("viewshed:call-raised", "call_raised", c["job"], c["error"])
-    v = ctx.judge("ViewLOS_Judge", [strip_los(c) for c in ok], name="los_" + mode, parallel=8)
+    v = ctx.judge("ViewLOS_Judge", [strip_los(c) for c in ok], name="los_" + mode, stateful=True, workers=6,
+                  parallel=8)
     leaned = 0
     for i, c in enumerate(ok):
         ctx.evaluations += 1
@@ -257,6 +258,8 @@ def handle_los(ctx, cases, mode):
         if nvis >= 1 and ninv >= 1:
             j = c["job"]
             ctx.nontrivial(json.dumps([j["terrain"], j["vr"], j["vc"], j["obs"], j["tgt"], j["ew"], j["ns"]]))
+        if cl == "judge_tables_inconsistent":
+            raise core.MachineryError("ViewLOS_Judge tables disagree with ViewLOS definitions")
         if cl == "outside_model_equal_keys":
             ctx.note("case outside the model (two cells active together at equal distance): %dx%d observer (%d,%d) "
                      "cell size (%d,%d)" % (c["H"], c["W"], c["vr"], c["vc"], c["ew"], c["ns"]))
@@ -333,7 +336,7 @@ def selftest(ctx, los_case, tree_case):
         else:
             continue
         break
-    v = ctx.judge("ViewLOS_Judge", [x[0] for x in bad], name="selftest_los", count_traces=False)
+    v = ctx.judge("ViewLOS_Judge", [x[0] for x in bad], name="selftest_los", stateful=True, count_traces=False)
     for i, (_, want) in enumerate(bad):
         if v.get(i) != want:
             raise core.MachineryError("selftest: corrupted LOS observation %d judged %r, expected %r"
